@@ -131,7 +131,7 @@ def run_wordlist(case):
             seen.add(tok)
             exp = R.resolve(tok)
             got = attempt(BIP39.__getitem__, tok)
-            kind = "word" if L == len(w) else f"prefix{L}"
+            kind = "word" if tok in R.INDEX else "prefix4"
             if exp is not None:
                 if got != exp:
                     res.violation(
@@ -139,7 +139,7 @@ def run_wordlist(case):
                         vc, got, exp, f"token {tok!r} (word {w!r}) does not resolve to its index",
                     )
                 else:
-                    res.ok(f"{'full-word' if tok in R.INDEX else 'prefix4'} resolves", nontrivial=("tok", tok), sample={"token": tok, "index": exp} if i % 512 == 0 else None)
+                    res.ok(f"{'full-word' if tok in R.INDEX else 'prefix4'} resolves", nontrivial=("tok", tok), sample={"token": tok, "index": exp} if tok == "divo" else None)
                 if tok in R.INDEX or L == 4:
                     n = attempt(BIP39.normalize, tok)
                     if n != R.WORDS[exp]:
@@ -211,13 +211,18 @@ def check_entropy(res, vc, e, nm, bulk=None):
             diff = [i for i in range(len(words)) if gw[i] != words[i]]
             cl = "checksum-word" if diff == [len(words) - 1] else "entropy-words"
         res.violation(f"C14/encode/words/{cl}/n{n}", vc, got, exp, f"bytes_to_mnemonic differs from BIP39 for entropy {e.hex()} ({nm})")
+    full_bad = False
     for form in FORMS:
         toks = spell(words, form)
         back = attempt(mnemonic_to_bytes, " ".join(toks))
         if not same(back, e):
             bad += 1
+            if form == "full":
+                full_bad = True
+            elif full_bad:
+                continue  # same failure already reported for the full spelling
             res.violation(
-                f"C14/encode/decode-{form}/{'rejected' if isinstance(back, Rejected) else 'bytes-differ'}/n{n}",
+                f"C14/encode/decode/{'rejected' if isinstance(back, Rejected) else 'bytes-differ'}/n{n}/{'full' if form == 'full' else 'abbrev'}",
                 vc, back, e, f"mnemonic_to_bytes of the reference sentence ({form} spelling) for entropy {e.hex()} ({nm})",
             )
     return 4 - bad
@@ -288,9 +293,15 @@ def run_accept(case):
             else:
                 acc += 1
         else:
+            sp = "full"
+            if form != "full":
+                tf = list(words)
+                tf[p] = w
+                if same(attempt(mnemonic_to_bytes, " ".join(tf)), R.decode(tf)):
+                    sp = "abbrev"  # the same sentence spelled with full words is handled correctly
             res.violation(
-                f"C14/accept/{cls_accept(got, exp)}/n{n}/{form}/{'last' if p == len(toks) - 1 else 'inner'}",
-                vc, {"word": w, "got": got}, exp, f"substituting word {wi} ({w!r}) at position {p}",
+                f"C14/accept/{cls_accept(got, exp)}/n{n}/{sp}",
+                vc, {"word": w, "got": got}, exp, f"substituting word {wi} ({w!r}) at position {p} of {len(toks)} ({form} spelling)",
             )
     base_hit = 1  # one of the 2048 is the base sentence itself
     res.bulk("accepted==ref (checksum matches)", acc, max(0, acc - base_hit))
@@ -450,15 +461,21 @@ def run_accept_hd(case):
             if isinstance(got, Rejected):
                 res.ok("from_mnemonic rejects (checksum differs)", nontrivial=("hd", n, case["base"], p, form, wi))
             else:
-                res.violation(f"C14/accept_hd/accepted-invalid-checksum/n{n}/{form}", vc, {"word": w, "got": got}, None, "HDPrivateKey.from_mnemonic accepts a sentence whose checksum is wrong")
+                res.violation(f"C14/accept_hd/accepted-invalid-checksum/n{n}", vc, {"word": w, "got": got}, None, f"HDPrivateKey.from_mnemonic accepts a sentence whose checksum is wrong ({form} spelling)")
         else:
             ex = R.xprv(R.seed(t, b""))
             if got == ex:
-                res.ok("from_mnemonic accepts, xprv==ref", nontrivial=("hd", n, case["base"], p, form, wi), sample={"sentence": t[:2] + ["..."] + t[-1:], "xprv": ex[:16] + "..."})
-            elif isinstance(got, Rejected):
-                res.violation(f"C14/accept_hd/rejected-valid/n{n}/{form}", vc, {"word": w, "got": got}, ex, "valid sentence rejected by from_mnemonic")
+                res.ok("from_mnemonic accepts, xprv==ref", nontrivial=("hd", n, case["base"], p, form, wi), sample={"sentence": t[:2] + ["..."] + t[-1:], "xprv": ex[:16] + "..."} if wi % 512 < 64 else None)
+                continue
+            sp = "full"
+            if form != "full":
+                tf = R.full_words(t)
+                if attempt(lambda: HDPrivateKey.from_mnemonic(" ".join(tf)).xprv()) == ex:
+                    sp = "abbrev"  # the same sentence in full words is handled correctly
+            if isinstance(got, Rejected):
+                res.violation(f"C14/accept_hd/rejected-valid/{sp}", vc, {"word": w, "got": got}, ex, f"valid {len(t)}-word sentence ({form} spelling) rejected by from_mnemonic")
             else:
-                res.violation(f"C14/accept_hd/xprv-differs/n{n}/{form}", vc, {"word": w, "got": got}, ex, "valid substituted sentence gives a different master key")
+                res.violation(f"C14/accept_hd/xprv-differs/{sp}", vc, {"word": w, "got": got}, ex, f"valid substituted {len(t)}-word sentence ({form} spelling) gives a different master key")
     return res
 
 
@@ -525,19 +542,40 @@ def run_seed(case):
         res.skip("seed gives an invalid BIP32 master key (probability 2^-127)")
         return res
     exp = {"xprv": R.xprv(sd, case["net"]), "secret": m[0], "chain": m[1]}
-    key = attempt(HDPrivateKey.from_mnemonic, " ".join(toks), pp, "m", case["net"])
-    cl = f"{case['form']}/{pp_class(case['pp'])}/{case['net']}/n{n}"
-    if isinstance(key, Rejected):
-        res.violation(f"C14/seed/rejected/{cl}", vc, key, exp["xprv"], "from_mnemonic refuses a valid sentence")
-        return res
-    got = attempt(lambda: {"xprv": key.xprv(), "secret": key.private_key.secret, "chain": bytes(key.chain_code)})
-    if got != exp:
-        which = "both"
-        if isinstance(got, dict):
-            which = "+".join(k for k in ("secret", "chain", "xprv") if got.get(k) != exp[k])
-        res.violation(f"C14/seed/{which}/{cl}", vc, got, exp, "master key differs from PBKDF2-HMAC-SHA512(2048, 'mnemonic'+passphrase) + BIP32 master derivation")
-    else:
+
+    def observe(tokens, passphrase, net):
+        k = attempt(HDPrivateKey.from_mnemonic, " ".join(tokens), passphrase, "m", net)
+        if isinstance(k, Rejected):
+            return k
+        return attempt(lambda: {"xprv": k.xprv(), "secret": k.private_key.secret, "chain": bytes(k.chain_code)})
+
+    def expect(tokens, passphrase, net):
+        s_ = R.seed(tokens, passphrase)
+        m_ = R.master(s_)
+        return {"xprv": R.xprv(s_, net), "secret": m_[0], "chain": m_[1]}
+
+    got = observe(toks, pp, case["net"])
+    if got == exp:
         res.ok("xprv/secret/chain==ref", nontrivial=("seed", n, case["base"], case["form"], case["pp"], case["net"]), sample={"pp": case["pp"], "form": case["form"], "xprv": exp["xprv"][:20] + "..."} if case["pp"] == "utf8-nfkd" else None)
+        return res
+    # name the narrowest dimension that matters: undo one deviation at a time, towards (full words, empty passphrase, mainnet)
+    full = R.full_words(toks)
+    if case["form"] != "full" and observe(full, pp, case["net"]) == expect(full, pp, case["net"]):
+        cause = "abbreviated-spelling"
+    elif pp != b"" and observe(full, b"", case["net"]) == expect(full, b"", case["net"]):
+        if pp != b"TREZOR" and observe(full, b"TREZOR", case["net"]) == expect(full, b"TREZOR", case["net"]):
+            cause = f"passphrase-{pp_class(case['pp'])}"  # a plain ASCII passphrase works, this one does not
+        else:
+            cause = "passphrase-nonempty"
+    elif case["net"] != "mainnet" and observe(full, b"", "mainnet") == expect(full, b"", "mainnet"):
+        cause = f"network-{case['net']}"
+    else:
+        cause = "any-input"
+    if isinstance(got, Rejected):
+        res.violation(f"C14/seed/rejected/{cause}", vc, got, exp["xprv"], f"from_mnemonic refuses a valid {len(toks)}-word sentence")
+        return res
+    which = "+".join(k for k in ("secret", "chain", "xprv") if got.get(k) != exp[k]) if isinstance(got, dict) else "unreadable"
+    res.violation(f"C14/seed/{which}/{cause}", vc, got, exp, f"master key of a {len(toks)}-word sentence differs from PBKDF2-HMAC-SHA512(2048, 'mnemonic'+passphrase) + BIP32 master derivation")
     return res
 
 
@@ -615,7 +653,7 @@ def run_pbkdf2(case):
         exp = hashlib.pbkdf2_hmac("sha512", as_bytes(pw), as_bytes(salt), 2048, 64)
         got = attempt(hmac_sha512_kdf, pw, salt)
         if got != exp:
-            res.violation(f"C14/pbkdf2/hmac_sha512_kdf/pw={case['pw']}", vc, got, exp, "helper.hmac_sha512_kdf differs from PBKDF2-HMAC-SHA512 with 2048 rounds, 64 bytes")
+            res.violation("C14/pbkdf2/hmac_sha512_kdf", vc, got, exp, "helper.hmac_sha512_kdf differs from PBKDF2-HMAC-SHA512 with 2048 rounds, 64 bytes")
         else:
             res.ok("hmac_sha512_kdf==hashlib", nontrivial=("kdf", case["pw"], case["salt"]))
         res.states += 1
@@ -631,9 +669,9 @@ def run_pbkdf2(case):
         obj = attempt(PBKDF2, pw, salt, it)
     else:
         obj = attempt(PBKDF2, pw, salt, it, getattr(hashlib, hn), hmac)
-    itc = "it2048" if it == 2048 else f"it{it}" if it <= 3 else "it-other"
+    itc = "it=1" if it == 1 else "it>1"
     if isinstance(obj, Rejected):
-        res.violation(f"C14/pbkdf2/construct/{hn}/{itc}/pw={case['pw']}", vc, obj, "object", "PBKDF2 constructor refuses the input")
+        res.violation(f"C14/pbkdf2/construct/pw={case['pw']}/salt={case['salt']}", vc, obj, "object", "PBKDF2 constructor refuses the input")
         return res
     pos = 0
     for k, sz in enumerate(hist):
@@ -646,8 +684,8 @@ def run_pbkdf2(case):
             blk = hashlib.new(ref_hash).digest_size
             crossed = "multi-block" if (pos - 1) // blk > 0 else "first-block"
             res.violation(
-                f"C14/pbkdf2/read/{hn}/{itc}/{'first-read' if k == 0 else 'later-read'}/{crossed}", vc,
-                {"read": k, "got": got}, exp, f"read #{k} of {sz} bytes after {pos - sz} bytes differs from the PBKDF2 stream",
+                f"C14/pbkdf2/read/{itc}/{'first-read' if k == 0 else 'later-read'}/{crossed}", vc,
+                {"read": k, "got": got}, exp, f"{hn}, {it} iterations: read #{k} of {sz} bytes after {pos - sz} bytes differs from the PBKDF2 stream",
             )
             return res
     res.ok("all reads==hashlib stream", nontrivial=("rd", hn, it, case["pw"], case["salt"], tuple(hist)), sample={"hash": hn, "it": it, "hist": hist} if len(hist) == 3 and hist[0] == 31 and it == 2 else None)
@@ -682,7 +720,7 @@ def run_generate(case):
     finally:
         bm.randbits, bm.time = old
     if isinstance(got, Rejected):
-        res.violation(f"C14/generate/raised/nb{nb}/r={case['rn']}/x={case['xn']}", vc, got, "a sentence", "secure_mnemonic fails for admissible arguments")
+        res.violation(f"C14/generate/raised/r={case['rn']}/x={case['xn']}", vc, got, "a sentence", "secure_mnemonic fails for admissible arguments")
         return res
     toks = got.split(" ") if isinstance(got, str) else []
     e = R.decode(toks)
